@@ -442,6 +442,77 @@ theorem cumsumFrom_sorted (t : Nat) (sizes : List Nat) :
       · omega
       · have := h2 v hv; omega
 
+/-! ### `bisect_right`: the binary search CPython runs returns the count of elements `≤ x` on sorted lists -/
+
+theorem bisectRight_le_length (xs : List Nat) (x : Int) : bisectRight xs x ≤ xs.length := by
+  unfold bisectRight
+  exact (List.takeWhile_sublist _).length_le
+
+/-- on a non-decreasing list, position `i` is below the count iff `xs[i] ≤ x` -/
+theorem bisectRight_lt_iff (xs : List Nat) (x : Int) (hs : xs.Pairwise (· ≤ ·)) (i : Nat) (hi : i < xs.length) :
+    i < bisectRight xs x ↔ ((xs[i] : Nat) : Int) ≤ x := by
+  unfold bisectRight
+  induction xs generalizing i with
+  | nil => simp at hi
+  | cons a as ih =>
+    rw [List.pairwise_cons] at hs
+    simp only [List.takeWhile_cons]
+    by_cases ha : (a : Int) ≤ x
+    · simp only [ha, decide_true, if_true, List.length_cons]
+      cases i with
+      | zero => simp [ha]
+      | succ i =>
+        simp only [List.getElem_cons_succ]
+        have := ih hs.2 i (by simpa using hi)
+        omega
+    · simp only [ha, decide_false, Bool.false_eq_true, if_false, List.length_nil, Nat.not_lt_zero, false_iff]
+      cases i with
+      | zero => simpa using ha
+      | succ i =>
+        simp only [List.getElem_cons_succ]
+        have hi' : i < as.length := by simpa using hi
+        have := hs.1 (as[i]'hi') (List.getElem_mem _)
+        omega
+
+/-- loop invariant of the binary search: `lo ≤ count ≤ hi`; it ends with `lo = count` -/
+theorem bisectLoop_eq (xs : List Nat) (x : Int) (hs : xs.Pairwise (· ≤ ·)) :
+    ∀ fuel lo hi, lo ≤ bisectRight xs x → bisectRight xs x ≤ hi → hi ≤ xs.length → hi - lo ≤ fuel →
+      bisectLoop xs x fuel lo hi = bisectRight xs x := by
+  intro fuel
+  induction fuel with
+  | zero => intro lo hi h1 h2 _ h4; simp only [bisectLoop]; omega
+  | succ fuel ih =>
+    intro lo hi h1 h2 h3 h4
+    simp only [bisectLoop]
+    by_cases hlt : lo < hi
+    · simp only [hlt, if_true]
+      have hm : (lo + hi) / 2 < xs.length := by omega
+      have hget : xs.getD ((lo + hi) / 2) 0 = xs[(lo + hi) / 2] := by
+        simp [List.getD, List.getElem?_eq_getElem hm]
+      have key := bisectRight_lt_iff xs x hs _ hm
+      rw [hget]
+      by_cases hx : x < ((xs[(lo + hi) / 2] : Nat) : Int)
+      · simp only [hx, if_true]
+        apply ih
+        · exact h1
+        · have : ¬ ((lo + hi) / 2 < bisectRight xs x) := fun h => by have := key.mp h; omega
+          omega
+        · omega
+        · omega
+      · simp only [hx, if_false]
+        apply ih
+        · have : (lo + hi) / 2 < bisectRight xs x := key.mpr (by omega)
+          omega
+        · exact h2
+        · exact h3
+        · omega
+    · simp only [hlt, if_false]; omega
+
+/-- **`bisect.bisect_right` as CPython computes it = the number of elements `≤ x`**, for every non-decreasing list -/
+theorem bisectRightBin_eq_count (xs : List Nat) (x : Int) (hs : xs.Pairwise (· ≤ ·)) :
+    bisectRightBin xs x = bisectRight xs x :=
+  bisectLoop_eq xs x hs xs.length 0 xs.length (Nat.zero_le _) (bisectRight_le_length xs x) (Nat.le_refl _) (by omega)
+
 theorem bisect_spec (sizes : List Nat) (t idx : Nat) (h1 : t ≤ idx) (h2 : idx < t + sizes.sum) :
     bisectRight (cumsumFrom t sizes) idx < sizes.length ∧
     t + (sizes.take (bisectRight (cumsumFrom t sizes) idx)).sum ≤ idx ∧
@@ -485,9 +556,11 @@ theorem concat_locate_spec (sizes : List Nat) (idx : Nat) (h : idx < sizes.sum) 
       idx = (sizes.take d).sum + j := by
   obtain ⟨b1, b2, b3⟩ := bisect_spec sizes 0 idx (by omega) (by omega)
   have hnn : ¬ ((idx : Int) < 0) := by omega
+  have hbin : bisectRightBin (cumsum sizes) idx = bisectRight (cumsum sizes) idx :=
+    bisectRightBin_eq_count _ _ (cumsumFrom_sorted 0 sizes).1
   refine ⟨bisectRight (cumsum sizes) idx, idx - (sizes.take (bisectRight (cumsum sizes) idx)).sum, ?_, b1, ?_, ?_⟩
   · unfold locate
-    simp only [hnn, false_and, if_false]
+    simp only [hnn, false_and, if_false, hbin]
     simp only [cumsum] at *
     simp only [b1, if_true]
     congr 2
@@ -550,8 +623,10 @@ theorem concat_rejects_above (sizes : List Nat) (idx : Int) (h : (sizes.sum : In
     locate sizes idx = .error .indexError := by
   unfold locate
   have h0 : ¬ idx < 0 := by omega
-  simp only [h0, false_and, if_false, cumsum]
-  rw [bisect_high sizes 0 idx (by simpa using h)]
+  have hbin : bisectRightBin (cumsum sizes) idx = bisectRight (cumsum sizes) idx :=
+    bisectRightBin_eq_count _ _ (cumsumFrom_sorted 0 sizes).1
+  have hhigh : bisectRight (cumsum sizes) idx = sizes.length := bisect_high sizes 0 idx (by simpa using h)
+  simp only [h0, false_and, if_false, hbin, hhigh]
   simp
 
 
